@@ -98,6 +98,8 @@ def parse_spec(path):
                         h['flags'] += v.split(',')
                     elif k == 'tier':
                         h['tier'] = v
+                    elif k == 'dfcc_entry':
+                        h['dfcc_entry'] = v not in ('0', 'no')
                     elif k == 'loopc':
                         h['loopc'] = v not in ('0', 'no', 'false')
                     else:
@@ -121,6 +123,13 @@ def parse_spec(path):
                 cfg['trivial_externals'].append(rest)
             elif key in ('@driver', '@filter', '@component'):
                 cfg[key[1:]] = rest
+            elif key == '@atomic_required':
+                cfg.setdefault('atomic_required', []).extend(rest.split())
+            elif key == '@guarded':
+                a, _, b = rest.partition(' = ')
+                cfg.setdefault('guarded', {})[a.strip()] = b.strip()
+            elif key == '@mutating_methods':
+                cfg.setdefault('mutating_methods', []).extend(rest.split())
             elif key == '@typename_pass':
                 cfg['typename_pass'] = rest.strip() not in ('0', 'no')
             elif key == '@abstract_tables':
